@@ -759,3 +759,87 @@ func deepDigest(x any) uint64 {
 	walk(reflect.ValueOf(x), 0)
 	return h.Sum64()
 }
+
+// capOverlaps: pointer-free slices reachable from x whose spare capacity (the bytes between len and cap)
+// covers the live elements of another slice of x. Growing such a slice in place - append, or a decoder that
+// re-slices a receiver row up to its capacity - writes into its neighbour.
+func capOverlaps(x any) []string {
+	type span struct {
+		lo, hi, capHi uintptr
+		path          string
+	}
+	var spans []span
+	seen := map[seenKey]bool{}
+	var walk func(v reflect.Value, path string, depth int)
+	walk = func(v reflect.Value, path string, depth int) {
+		if !v.IsValid() || depth > 60 {
+			return
+		}
+		v = rw(v)
+		t := v.Type()
+		switch v.Kind() {
+		case reflect.Ptr:
+			if v.IsNil() {
+				return
+			}
+			k := seenKey{v.UnsafePointer(), t, 0}
+			if seen[k] {
+				return
+			}
+			seen[k] = true
+			walk(v.Elem(), path+"*", depth+1)
+		case reflect.Interface:
+			if !v.IsNil() {
+				e := v.Elem()
+				if e.Kind() == reflect.Ptr || e.Kind() == reflect.Slice || e.Kind() == reflect.Map {
+					walk(e, path, depth+1)
+				}
+			}
+		case reflect.Struct:
+			for i := 0; i < v.NumField(); i++ {
+				walk(v.Field(i), path+"."+t.Field(i).Name, depth+1)
+			}
+		case reflect.Slice:
+			if v.IsNil() || v.Cap() == 0 {
+				return
+			}
+			es := t.Elem().Size()
+			if pointerFree(t.Elem()) {
+				if es > 0 {
+					lo := uintptr(v.UnsafePointer())
+					spans = append(spans, span{lo, lo + es*uintptr(v.Len()), lo + es*uintptr(v.Cap()), path})
+				}
+				return
+			}
+			for i := 0; i < v.Len(); i++ {
+				walk(v.Index(i), fmt.Sprintf("%s[%d]", path, i), depth+1)
+			}
+		case reflect.Map:
+			if v.IsNil() {
+				return
+			}
+			it := v.MapRange()
+			for it.Next() {
+				e := it.Value()
+				if e.Kind() == reflect.Ptr || e.Kind() == reflect.Slice || e.Kind() == reflect.Interface {
+					walk(e, path+"{}", depth+1)
+				}
+			}
+		}
+	}
+	walk(reflect.ValueOf(x), "", 0)
+	var out []string
+	for i, a := range spans {
+		if a.capHi == a.hi {
+			continue
+		}
+		for j, b := range spans {
+			if i != j && b.hi > b.lo && a.hi < b.hi && b.lo < a.capHi && !(b.lo == a.lo && b.hi == a.hi) {
+				out = append(out, normPath(a.path))
+				break
+			}
+		}
+	}
+	sort.Strings(out)
+	return out
+}
